@@ -114,7 +114,6 @@ impl<'a> ZoneGroupCollector<'a> {
         plan: &QueryPlan,
         caches: Option<&QueryCaches>,
     ) -> Vec<CandidateZone> {
-        let segment_ids = plan.segment_ids.read().unwrap();
         let event_type = plan.event_type();
 
         // Get UID for event type from plan's filter groups
@@ -138,6 +137,7 @@ impl<'a> ZoneGroupCollector<'a> {
                 event_type.to_string()
             });
 
+        let segment_ids = plan.live_segments_serving(Some(&uid));
         let mut all_zones = Vec::new();
         for segment_id in segment_ids.iter() {
             let zones = if let Some(caches) = caches {
